@@ -65,6 +65,8 @@ type Extractor struct {
 	MaxDepth int
 	// NoInline lists functions kept as opaque calls.
 	NoInline map[*ssa.Function]bool
+	// Inline, when set, restricts SEE inlining to callees for which it returns true.
+	Inline func(*ssa.Function) bool
 }
 
 type seeCtx struct {
@@ -78,6 +80,7 @@ type seeCtx struct {
 	at     ssa.Instruction // load site for store-kill filtering
 	ps     *pstate         // path being enumerated (nil outside path mode)
 	defAt  ssa.Instruction // observation point for pointees of address values (path end)
+	fn     *ssa.Function   // function whose values this context evaluates
 }
 
 // Of returns the expression for v evaluated in its own function, without
@@ -87,13 +90,14 @@ func (x *Extractor) Of(v ssa.Value) *Expr {
 		stack: map[*ssa.Function]bool{}, active: map[ssa.Value]bool{}, memo: map[ssa.Value]*Expr{}}
 	if v.Parent() != nil {
 		c.stack[v.Parent()] = true
+		c.fn = v.Parent()
 	}
 	return c.of(v)
 }
 
 func (c *seeCtx) child(fn *ssa.Function) *seeCtx {
 	n := &seeCtx{x: c.x, depth: c.depth + 1, params: map[*ssa.Parameter]*Expr{}, fvs: map[*ssa.FreeVar]*Expr{},
-		stack: map[*ssa.Function]bool{}, active: map[ssa.Value]bool{}, memo: map[ssa.Value]*Expr{}}
+		stack: map[*ssa.Function]bool{}, active: map[ssa.Value]bool{}, memo: map[ssa.Value]*Expr{}, fn: fn}
 	for k := range c.stack {
 		n.stack[k] = true
 	}
@@ -525,6 +529,20 @@ func allocAliases(a *ssa.Alloc) []ssa.Value {
 			continue
 		}
 		for _, r := range *refs {
+			if ci, ok := r.(ssa.CallInstruction); ok {
+				// the address is passed to a module-local callee: its parameter denotes the same place
+				if callee := StaticCallee(ci.Common()); callee != nil && callee.Blocks != nil && len(out) < 16 {
+					for ai, arg := range ci.Common().Args {
+						if arg == v && ai < len(callee.Params) {
+							pv := callee.Params[ai]
+							if !seen[pv] {
+								seen[pv] = true
+								out = append(out, pv)
+							}
+						}
+					}
+				}
+			}
 			if mc, ok := r.(*ssa.MakeClosure); ok {
 				fn := mc.Fn.(*ssa.Function)
 				for bi, b := range mc.Bindings {
@@ -620,7 +638,7 @@ func (c *seeCtx) loadAlloc(a *ssa.Alloc, path []int) *Expr {
 		}
 		return e
 	}
-	stores := c.liveStores(storesToPlace(a, path), c.at)
+	stores := c.liveStores(a, storesToPlace(a, path), c.at)
 	var alts []*Expr
 	for _, ps := range stores {
 		if ps.st == nil {
@@ -758,7 +776,7 @@ func (c *seeCtx) call(v *ssa.Call) *Expr {
 		}
 	}
 	if callee != nil && callee.Blocks != nil && c.x.InModule != nil && c.x.InModule(callee) &&
-		c.depth < c.x.MaxDepth && !c.stack[callee] && !c.x.NoInline[callee] {
+		c.depth < c.x.MaxDepth && !c.stack[callee] && !c.x.NoInline[callee] && (c.x.Inline == nil || c.x.Inline(callee)) {
 		n := c.child(callee)
 		for i, p := range callee.Params {
 			if i < len(cc.Args) {
@@ -1005,7 +1023,7 @@ func (e *Expr) Contains(pred func(*Expr) bool) bool {
 // liveStores drops stores that are overwritten before the load site: S1 is
 // dead when another store S2 to the same place satisfies S1 dom S2 dom load.
 // Only stores in the load's own function take part.
-func (c *seeCtx) liveStores(stores []placeStore, at ssa.Instruction) []placeStore {
+func (c *seeCtx) liveStores(al *ssa.Alloc, stores []placeStore, at ssa.Instruction) []placeStore {
 	if at == nil || len(stores) == 0 {
 		return stores
 	}
@@ -1014,8 +1032,12 @@ func (c *seeCtx) liveStores(stores []placeStore, at ssa.Instruction) []placeStor
 	// the last store executed on the path before the load.
 	if c.ps != nil {
 		all := true
+		frames := map[*ssa.Function]bool{fn: true}
+		for _, sg := range c.ps.segs {
+			frames[sg.b.Parent()] = true
+		}
 		for _, s := range stores {
-			if s.st.Parent() != fn {
+			if !frames[s.st.Parent()] {
 				all = false
 			}
 		}
@@ -1043,9 +1065,17 @@ func (c *seeCtx) liveStores(stores []placeStore, at ssa.Instruction) []placeStor
 					}
 				}
 				sb := s.st.Block()
-				for bi, hb := range c.ps.blocks {
-					hp := bi * 100000
-					if hp > bestPos && hp < lp && isLoopHeader(hb) && hb.Dominates(sb) && (sb == hb || Info(fn).Reaches(sb, hb)) {
+				for si, sg := range c.ps.segs {
+					hb := sg.b
+					hp := si * 100000
+					if sg.from != 0 || hb.Parent() != sb.Parent() || !isLoopHeader(hb) {
+						continue
+					}
+					// a variable declared inside the loop is fresh in every iteration: nothing carries over
+					if al != nil && al.Parent() == hb.Parent() && hb.Dominates(al.Block()) {
+						continue
+					}
+					if hp > bestPos && hp < lp && hb.Dominates(sb) && (sb == hb || Info(hb.Parent()).Reaches(sb, hb)) {
 						out = append(out, s)
 						break
 					}
